@@ -13,6 +13,7 @@ import (
 	"sort"
 	"strings"
 	"sync"
+	"sync/atomic"
 	"time"
 )
 
@@ -236,6 +237,54 @@ type c19Case struct {
 	stdin     []string          // the lines on the hook's standard input (nil: /dev/null, as the operator starts hooks)
 	looks     map[string]string // where the handler looks at the current context from (c19Looks), by function name; absent = "subst"
 	inherit   string            // "" = the hook process finds no BINDING_CONTEXT_CURRENT_* in its environment (as under the operator); else a stale index it inherits
+	layout    string            // where the script loads the bundled library relative to its own function definitions (c19Layouts); "" = "first"
+	ctxFile   string            // non-empty: the binding-context file lives at <scratch>/<ctxFile> and stays there after the run (a later run of the same case reuses the path, as a second execution of the hook does)
+	exitTrap  bool              // the hook installs an EXIT trap of its own after loading the library (the temp-file idiom); bash keeps one EXIT trap per shell
+	env       []string          // NAME=value pairs the hook process inherits besides its own (the operator hands os.Environ() to every hook): c19EnvPool
+}
+
+// c19Layouts: the order of "load the bundled library" and "define __config__ and the handlers" in the
+// hook script. The property speaks of "a hook that loads the bundled shell library and framework" and of
+// "the handler functions defined by the hook script" — it does not say in which order the script does the two.
+//
+//	first    source shell_lib.sh; definitions; hook::run "$@"            (the bundled examples)
+//	last     definitions; source shell_lib.sh; hook::run "$@"            (functions first, boilerplate at the end)
+//	twice    source shell_lib.sh; definitions; source common.sh (a shared include that loads the library again); hook::run "$@"
+//	include  source common.sh (loads the library, defines shared helpers); definitions; hook::run "$@"
+//	between  half of the definitions; source shell_lib.sh; the other half; hook::run "$@"
+var c19Layouts = []string{"first", "last", "twice", "include", "between"}
+
+// c19EnvPool: variables the hook process may find in its environment. The operator starts every hook with
+// its own os.Environ() (pkg/hook/hook.go), so its configuration variables (the Envar(...) names of
+// pkg/app) reach the hook; the second group are names the framework and the library use as plain shell
+// variables (an exported variable of the caller with the same name is imported by bash at start-up).
+var c19EnvPool = []string{
+	"LOG_LEVEL=debug", "LOG_LEVEL=debug", "LOG_LEVEL=debug", "LOG_LEVEL=info", "LOG_LEVEL=error", "LOG_LEVEL=trace",
+	"LOG_TYPE=json", "LOG_TYPE=text", "LOG_TYPE=color", "LOG_NO_TIME=true", "LOG_PROXY_HOOK_JSON=true",
+	"DEBUG=yes", "DEBUG=1", "VERBOSE=1", "TRACE=1", "DEBUG_KEEP_TMP_FILES=yes", "DEBUG_KUBERNETES_API=yes",
+	"DEBUG_UNIX_SOCKET=/var/run/shell-operator/debug.socket", "DEBUG_HTTP_SERVER_ADDR=:9115",
+	"SHELL_OPERATOR_HOOKS_DIR=/hooks", "SHELL_OPERATOR_TMP_DIR=/tmp/shell-operator", "SHELL_OPERATOR_NAMESPACE=default",
+	"KUBE_CONTEXT=kind", "KUBE_CLIENT_QPS=5", "VALIDATING_WEBHOOK_FAILURE_POLICY=Fail", "QUEUE_ACTIONS_METRICS=no",
+	"i=7", "i=0", "CONTEXT_LENGTH=0", "CONTEXT_LENGTH=99", "HANDLERS=__main__", "handler=__main__", "handlers=__main__",
+	"f=/dev/null", "frame=3", "frames=0", "ret=1", "lineno=1", "BINDING_CONTEXT_CURRENT_TYPE=Schedule", "BINDING_CONTEXT_GROUP_NAME=stale",
+}
+
+func c19RandEnv(rng *Rng, p int) []string {
+	var env []string
+	if !rng.Chance(p) {
+		return nil
+	}
+	seen := map[string]bool{}
+	for j, m := 0, rng.Range(1, 4); j < m; j++ {
+		e := PickOne(rng, c19EnvPool)
+		n := e[:strings.IndexByte(e, '=')]
+		if !seen[n] {
+			seen[n] = true
+			env = append(env, e)
+		}
+	}
+	sort.Strings(env)
+	return env
 }
 
 // c19Looks: where the code that inspects the current context runs. The first group stays inside the
@@ -289,12 +338,21 @@ func c19Run(r *Run, c *Case, k c19Case, tag string) {
 	}
 	jb, _ := json.Marshal(arr)
 	ctxPath := filepath.Join(dir, "binding_context.json")
+	if k.ctxFile != "" {
+		ctxPath = filepath.Join(r.Scratch, k.ctxFile)
+		if a, err := filepath.Abs(ctxPath); err == nil {
+			ctxPath = a
+		}
+		c.Note("ctxfile:reused-path")
+	}
 	_ = os.WriteFile(ctxPath, jb, 0o644)
 	logPath := filepath.Join(dir, "log.txt")
 
+	// the pieces the script is assembled from (k.layout decides their order): loading the library,
+	// the hook's own definitions (__config__, the helpers, one function per defined handler), the tail
+	var pieces []string
+	pieces = append(pieces, "function __config__() { echo 'VERIF-CONFIG-MARKER configVersion: v1'; }\n")
 	var sb strings.Builder
-	sb.WriteString("#!/bin/bash\nsource " + lib + "\n")
-	sb.WriteString("function __config__() { echo 'VERIF-CONFIG-MARKER configVersion: v1'; }\n")
 	sb.WriteString(`function __verif_look() {
   echo "${BINDING_CONTEXT_CURRENT_INDEX-unset} $(context::jq -r "${1:-.vid}") ${BINDING_CONTEXT_CURRENT_BINDING-unset}"
 }
@@ -343,8 +401,33 @@ function __verif_handler() {
   return 0
 }
 `)
+	pieces = append(pieces, sb.String())
 	for _, n := range k.defined {
-		fmt.Fprintf(&sb, "function %s() { __verif_handler '%s' '%s' '%s'; }\n", n, n, k.acts[n], k.looks[n])
+		pieces = append(pieces, fmt.Sprintf("function %s() { __verif_handler '%s' '%s' '%s'; }\n", n, n, k.acts[n], k.looks[n]))
+	}
+	loadLib := "source " + lib + "\n"
+	// a shared include of the hook directory: loads the library (again) and defines a helper of its own
+	common := filepath.Join(dir, "common.sh")
+	_ = os.WriteFile(common, []byte("#!/bin/bash\nsource "+lib+"\nfunction common::labels() { echo 'app=verif'; }\n"), 0o644)
+	loadCommon := "source " + common + "\n"
+	sb.Reset()
+	sb.WriteString("#!/bin/bash\n")
+	switch k.layout {
+	case "last":
+		sb.WriteString(strings.Join(pieces, "") + loadLib)
+	case "twice":
+		sb.WriteString(loadLib + strings.Join(pieces, "") + loadCommon)
+	case "include":
+		sb.WriteString(loadCommon + strings.Join(pieces, ""))
+	case "between":
+		h := (len(pieces) + 1) / 2
+		sb.WriteString(strings.Join(pieces[:h], "") + loadLib + strings.Join(pieces[h:], ""))
+	default:
+		sb.WriteString(loadLib + strings.Join(pieces, ""))
+	}
+	if k.exitTrap {
+		sb.WriteString("trap 'rm -f \"$VERIF_DIR/hook-tmp.$$\"' EXIT\n")
+		c.Note("hook:own-exit-trap")
 	}
 	sb.WriteString(`if [[ "${VERIF_MODE:-}" == "cands" ]]; then
   n=$(context::global::jq -r 'length')
@@ -394,11 +477,49 @@ echo "${BINDING_CONTEXT_CURRENT_INDEX-unset} $v ${BINDING_CONTEXT_CURRENT_BINDIN
 			base = append(base, "BINDING_CONTEXT_CURRENT_INDEX="+k.inherit, "BINDING_CONTEXT_CURRENT_BINDING=onStartup",
 				"BINDING_CONTEXT_CURRENT_TYPE=Schedule", "BINDING_CONTEXT_GROUP_NAME=stale")
 		}
+		if len(k.env) > 0 {
+			drop := map[string]bool{}
+			for _, e := range k.env {
+				drop[e[:strings.IndexByte(e, '=')]] = true
+			}
+			var b2 []string
+			for _, e := range base {
+				if i := strings.IndexByte(e, '='); i < 0 || !drop[e[:i]] {
+					b2 = append(b2, e)
+				}
+			}
+			base = append(b2, k.env...)
+		}
 		cmd.Env = append(base, "BINDING_CONTEXT_PATH="+ctxPath, "VERIF_LOG="+logPath, "VERIF_DIR="+dir, "VERIF_LIB="+lib,
 			"VERIF_MODE="+mode, fmt.Sprintf("VERIF_START=%d", start),
 			"VERIF_FAILIDX="+strings.Join(fi, " "), "VERIF_FAILNAMES="+strings.Join(k.failNames, " "),
 			"VERIF_FAILMODE="+k.failMode)
+		// "exactly one handler per context": a run that has logged far more invocations than there are
+		// contexts has already shown what it will show (a dispatch loop that does not advance never ends) —
+		// it is stopped and judged on the log it wrote, not on how long it took
+		stop := make(chan struct{})
+		var runaway atomic.Bool
+		if mode == "" {
+			go func() {
+				for {
+					select {
+					case <-stop:
+						return
+					case <-time.After(100 * time.Millisecond):
+					}
+					if lb, err := os.ReadFile(logPath); err == nil && strings.Count(string(lb), "\n") > 3*len(k.ctxs)+12 {
+						runaway.Store(true)
+						cancel()
+						return
+					}
+				}
+			}()
+		}
 		out, err := cmd.Output()
+		close(stop)
+		if runaway.Load() {
+			return string(out), 124, false
+		}
 		if ctx.Err() != nil {
 			return string(out), -1, true
 		}
@@ -433,6 +554,19 @@ echo "${BINDING_CONTEXT_CURRENT_INDEX-unset} $v ${BINDING_CONTEXT_CURRENT_BINDIN
 	}
 	c.Op("looks "+joinStrs(looks), "ok")
 	c.Op("inherit "+dash(k.inherit), "ok")
+	lay := k.layout
+	if lay == "" {
+		lay = "first"
+	}
+	c.Op("layout "+lay, "ok")
+	c.Note("layout:" + lay)
+	c.Op("env "+joinStrs(k.env), "ok")
+	for _, e := range k.env {
+		c.Note("env:" + e)
+	}
+	if len(k.env) == 0 {
+		c.Note("env:none")
+	}
 	if k.inherit != "" {
 		c.Note("inherit:stale-selection")
 	} else {
@@ -625,7 +759,7 @@ func runC19(r *Run) {
 	// a case runs bash up to three times (each bounded by 40 s and reported inconclusive on timeout):
 	// keep the per-case watchdog above that so a loaded machine never shows up as a `hang`
 	r.CaseTimeout = 150 * time.Second
-	r.Rule = "real bash runs of generated hook scripts that source the repository's shell_lib.sh + frameworks/shell/*.sh: (1) exhaustive single-context cases = every context kind (onStartup, Synchronization, Event Added/Modified/Deleted, Group, Schedule, Validating, Mutating, Conversion) x every subset of its documented candidates + __main__ (76 cases); (2) random arrays of 0..6 contexts of every kind incl. odd shapes (unknown type, no type, no binding, unknown watchEvent, onStartup with a type), random subsets of candidate functions plus decoy functions of other bindings/kinds, failures scripted by context index or handler name ending with return 3 / exit 2 / `false` under set -e, args none / --config / other; thorough adds all ordered pairs of kinds x {all specific handlers, only __main__, nothing for the first, nothing for the second} x failure at {none, first, second}. Every defined function also gets a place it looks at the current context from (its own shell: $(…), ( … ), a pipeline element, a background job; or a NEW PROGRAM: an executable helper script that sources the library again and calls context::jq or context::get, bash -c, the helper two execs deep, the helper started through env | xargs), and 15 % of the hooks are started with a stale BINDING_CONTEXT_CURRENT_* selection in their environment; corpus cases 8 (one function, helper script, three contexts) and 9 (one context per way of looking, last handler fails, with and without a stale inherited selection). Observation: (index, handler, context read through context::jq, and index / context / binding seen from where the handler looks) per invocation in order, config marker on stdout, exit status; plus the output of hook::_get_possible_handler_names per context. Non-trivial: at least one context and not --config; distinct = distinct op-line sequences."
+	r.Rule = "real bash runs of generated hook scripts that source the repository's shell_lib.sh + frameworks/shell/*.sh: (1) exhaustive single-context cases = every context kind (onStartup, Synchronization, Event Added/Modified/Deleted, Group, Schedule, Validating, Mutating, Conversion) x every subset of its documented candidates + __main__ (76 cases); (2) random arrays of 0..6 contexts of every kind incl. odd shapes (unknown type, no type, no binding, unknown watchEvent, onStartup with a type), random subsets of candidate functions plus decoy functions of other bindings/kinds, failures scripted by context index or handler name ending with return 3 / exit 2 / `false` under set -e, args none / --config / other; thorough adds all ordered pairs of kinds x {all specific handlers, only __main__, nothing for the first, nothing for the second} x failure at {none, first, second}. Every defined function also gets a place it looks at the current context from (its own shell: $(…), ( … ), a pipeline element, a background job; or a NEW PROGRAM: an executable helper script that sources the library again and calls context::jq or context::get, bash -c, the helper two execs deep, the helper started through env | xargs), and 15 % of the hooks are started with a stale BINDING_CONTEXT_CURRENT_* selection in their environment; corpus cases 8 (one function, helper script, three contexts) and 9 (one context per way of looking, last handler fails, with and without a stale inherited selection). Every hook also has a script layout (the bundled library loaded before the hook's own definitions / after them / before and a second time through a shared include / only through the include / between the definitions; block of every layout x {--config, dispatch, x --config, --config x}) and 35 % of the hooks inherit one to four variables from the operator's environment (LOG_LEVEL=debug|info|error|trace, LOG_TYPE, DEBUG*, SHELL_OPERATOR_*, KUBE_* ... and names the framework uses as plain shell variables: i, CONTEXT_LENGTH, HANDLERS, handler, handlers, f, frame, ret; a block runs every variable of the pool with an array of 2..5 contexts); corpus cases 10 (every layout: --config and a two-context dispatch) and 11 (LOG_LEVEL=debug with three / five contexts), 12 (thirteen contexts), 13 (second execution with the same binding-context path after a run of a hook that has its own EXIT trap; 10 % of the random arrays are preceded by such a run for another array). A run that has logged more than 3n+12 invocations for n contexts is stopped and judged on its log (a dispatch loop that does not advance). Observation: (index, handler, context read through context::jq, and index / context / binding seen from where the handler looks) per invocation in order, config marker on stdout, exit status; plus the output of hook::_get_possible_handler_names per context. Non-trivial: at least one context and not --config; distinct = distinct op-line sequences."
 	bindings := []string{"pods", "monitor-pods", "cfg.v1", "kubernetes", "schedule", "a_b", "main", "every*min", "x[1]", "what?"}
 	groups := []string{"g1", "grp-a", "pods"}
 
@@ -711,6 +845,97 @@ func runC19(r *Run) {
 		c19Run(r, c, k, "b")
 	})
 
+	r.One(10, func(c *Case, _ *Rng) {
+		c.Desc = "corpus: every script layout (library loaded first / after the hook's own definitions / a second time by a shared include / through the include / between the definitions): --config prints the hook's configuration, and two contexts are dispatched to the hook's own functions"
+		c.Nontrivial = true
+		for i, lay := range c19Layouts {
+			c19Run(r, c, c19Case{ctxs: []c19Ctx{c19Make("startup", "", "")}, defined: []string{"__main__", "__on_startup"},
+				args: []string{"--config"}, failMode: "return3", layout: lay}, fmt.Sprintf("c%d", i))
+			c19Run(r, c, c19Case{ctxs: []c19Ctx{c19Make("startup", "", ""), c19Make("modified", "pods", "")},
+				defined: []string{"__main__", "__on_kubernetes::pods::added_or_modified", "__on_startup"}, failMode: "return3", layout: lay}, fmt.Sprintf("d%d", i))
+		}
+	})
+	r.One(11, func(c *Case, _ *Rng) {
+		c.Desc = "corpus: the hook inherits the operator's environment with LOG_LEVEL=debug (and a variable named like the loop index): three Schedule contexts; Synchronization followed by four contexts with one to four candidates"
+		c.Nontrivial = true
+		c19Run(r, c, c19Case{ctxs: []c19Ctx{c19Make("schedule", "cron", ""), c19Make("schedule", "cron", ""), c19Make("schedule", "cron", "")},
+			defined: []string{"__on_schedule::cron"}, failMode: "return3", env: []string{"LOG_LEVEL=debug"}}, "a")
+		c19Run(r, c, c19Case{ctxs: []c19Ctx{c19Make("sync", "pods", ""), c19Make("added", "pods", ""), c19Make("schedule", "cron", ""), c19Make("schedule", "cron", ""), c19Make("startup", "", "")},
+			defined: []string{"__main__", "__on_kubernetes::pods", "__on_schedule::cron"}, failMode: "return3", env: []string{"LOG_LEVEL=debug", "i=7"}}, "b")
+	})
+
+	r.One(12, func(c *Case, _ *Rng) {
+		c.Desc = "corpus: an array of thirteen contexts (two-digit indices; the order of the indices is numeric, not lexicographic), the last handler fails"
+		c.Nontrivial = true
+		var k c19Case
+		for i := 0; i < 13; i++ {
+			k.ctxs = append(k.ctxs, c19Make(c19Kinds[i%len(c19Kinds)], "pods", "g1"))
+		}
+		k.defined = []string{"__main__", "__on_kubernetes::pods", "__on_schedule::pods"}
+		k.failIdx = []int{12}
+		k.failMode = "return3"
+		c19Run(r, c, k, "a")
+	})
+
+	r.One(13, func(c *Case, _ *Rng) {
+		c.Desc = "corpus: second execution — the hook (which installs its own EXIT trap, the temp-file idiom) runs for [Added pods], then again with the same binding-context path for [Deleted pods, Schedule cron]: the second run dispatches the second array"
+		c.Nontrivial = true
+		def := []string{"__on_kubernetes::pods::added", "__on_kubernetes::pods::deleted", "__on_schedule::cron"}
+		c19Run(r, c, c19Case{ctxs: []c19Ctx{c19Make("added", "pods", "")}, defined: def, failMode: "return3", exitTrap: true, ctxFile: "c19-13-ctx.json"}, "a")
+		c19Run(r, c, c19Case{ctxs: []c19Ctx{c19Make("deleted", "pods", ""), c19Make("schedule", "cron", "")}, defined: def, failMode: "return3", exitTrap: true, ctxFile: "c19-13-ctx.json"}, "b")
+	})
+
+	// (1c) script layouts x {--config, dispatch, `x --config`} and every variable of the environment pool x
+	// an array of 2..5 contexts (what the environment may disturb is the loop, not a single dispatch)
+	type shaped struct {
+		layout string
+		args   []string
+		env    string
+	}
+	var shapeds []shaped
+	for _, lay := range c19Layouts {
+		for _, a := range [][]string{{"--config"}, nil, {"x", "--config"}, {"--config", "x"}} {
+			shapeds = append(shapeds, shaped{layout: lay, args: a})
+		}
+	}
+	for _, e := range uniqSorted(c19EnvPool) {
+		shapeds = append(shapeds, shaped{env: e})
+	}
+	r.Extra["layout_and_environment_cases"] = len(shapeds)
+	r.Cases(300, len(shapeds), 0, func(c *Case, rng *Rng) {
+		z := shapeds[c.Idx-300]
+		var k c19Case
+		var pool []string
+		for i, n := 0, rng.Range(2, 5); i < n; i++ {
+			x := c19Make(PickOne(rng, c19Kinds), PickOne(rng, bindings), PickOne(rng, groups))
+			k.ctxs = append(k.ctxs, x)
+			pool = append(pool, x.cands()...)
+		}
+		def := []string{}
+		for _, p := range uniqSorted(pool) {
+			if rng.Chance(60) {
+				def = append(def, p)
+			}
+		}
+		if rng.Chance(80) {
+			def = append(def, "__main__") // most of these runs reach the last context
+		}
+		k.defined = uniqSorted(def)
+		k.failMode = "return3"
+		k.args = z.args
+		k.layout = z.layout
+		if z.env != "" {
+			k.env = []string{z.env}
+			k.layout = PickOne(rng, c19Layouts)
+		} else {
+			k.env = c19RandEnv(rng, 30)
+		}
+		k.looks = c19RandLooks(rng, k.defined, 30)
+		c.Desc = fmt.Sprintf("shape layout=%s args=%v env=%v", k.layout, k.args, k.env)
+		c.Nontrivial = true
+		c19Run(r, c, k, "a")
+	})
+
 	// (1) exhaustive single-context cases
 	type single struct {
 		kind string
@@ -732,6 +957,10 @@ func runC19(r *Run) {
 		if rng.Chance(20) {
 			k.inherit = PickOne(rng, []string{"0", "3", "17"})
 		}
+		if rng.Chance(40) {
+			k.layout = PickOne(rng, c19Layouts)
+		}
+		k.env = c19RandEnv(rng, 30)
 		c19Run(r, c, k, "a")
 	})
 	r.Exhaust = true
@@ -867,6 +1096,12 @@ func runC19(r *Run) {
 		if rng.Chance(15) {
 			k.inherit = PickOne(rng, []string{"0", "3", "17"})
 		}
+		// the order in which the script loads the library and defines its functions; what the hook
+		// process inherits from the operator's environment
+		if rng.Chance(35) {
+			k.layout = PickOne(rng, c19Layouts)
+		}
+		k.env = c19RandEnv(rng, 35)
 		if rng.Chance(30) {
 			k.stdin = []string{}
 			for i, m := 0, rng.Range(0, 5); i < m; i++ {
@@ -883,6 +1118,21 @@ func runC19(r *Run) {
 		}
 		c.Nontrivial = n >= 1 && !(len(k.args) == 1 && k.args[0] == "--config")
 		c.Note(fmt.Sprintf("len:%d", n))
+		if n >= 1 && rng.Chance(10) {
+			// second execution: the same hook ran before, for another array, with the same binding-context path
+			// (and has an EXIT trap of its own, so nothing the library would clean up at exit is cleaned)
+			k.ctxFile = fmt.Sprintf("c19-%d-ctx.json", c.Idx)
+			k.exitTrap = rng.Chance(70)
+			prev := k
+			prev.ctxs = nil
+			for i := len(k.ctxs) - 1; i >= 0; i-- {
+				prev.ctxs = append(prev.ctxs, k.ctxs[i])
+			}
+			prev.ctxs = append(prev.ctxs, c19Make("schedule", "main", ""))
+			prev.exitTrap = true
+			c.Note("prev-run:other-array-same-path")
+			c19Run(r, c, prev, "p")
+		}
 		c19Run(r, c, k, "a")
 	})
 
@@ -931,6 +1181,10 @@ func runC19(r *Run) {
 			if rng.Chance(10) {
 				k.inherit = PickOne(rng, []string{"0", "1", "17"})
 			}
+			if rng.Chance(30) {
+				k.layout = PickOne(rng, c19Layouts)
+			}
+			k.env = c19RandEnv(rng, 40)
 			c.Desc = fmt.Sprintf("pair %s,%s mode=%d fail=%d", p.a, p.b, p.mode, p.fail)
 			c.Nontrivial = true
 			c19Run(r, c, k, "a")
